@@ -71,7 +71,7 @@ def run_history(ctx, u, period, clock, ops_iter, site, shape, sample=None, obs_o
             tgt = None if op[0] == "A" else op[1]
             spec.apply(op, u, before.get(tgt, (False, None))[0])
         lp.evaluate(ctx, p, spec, op, res, before, site, lp.Lazy(lambda d=done, m=len(done), c=clock: [lp.enc_op(o) for o in d[:m]] + [f"A={u.A} T={u.T} period={period} clock={c.readings[:c.k]}"]))
-        head = f"{res}@{k_after}"
+        head = f"{res}@{k_after}@{'1' if p.finished else '0'}"
         if obs == "d":
             head += "#" + lp.dump(p, u)
         elif obs == "e":
@@ -288,6 +288,17 @@ def scheduled_run(ctx, nthreads, maxlen, fixed=None):
     clock = LazyClock(u, rng.choice([[1], [0, 1], [1, 2, 5]]), rng=rng)
     clock.hook = lambda: sched.yield_point("r") if (sched.current() is not None and not lock.held()) else None
     p = lp.make_progress(clock, period, u, lock=lock)
+    import rich.progress as rp
+    unguarded = []
+    orig_task = rp.Task
+    rp.Task = lp.make_guarded_task_class(sched, lock, unguarded)
+    try:
+        return _scheduled_run(ctx, rng, u, A, T, period, sched, lock, clock, p, unguarded, nthreads, maxlen, fixed)
+    finally:
+        rp.Task = orig_task
+
+
+def _scheduled_run(ctx, rng, u, A, T, period, sched, lock, clock, p, unguarded, nthreads, maxlen, fixed):
     spec = lp.Spec()
     nonneg = rng.random() < 0.75
     if fixed:
@@ -303,37 +314,26 @@ def scheduled_run(ctx, nthreads, maxlen, fixed=None):
         spec.apply(op, u, False)
         done_ops.append(("setup", op))
     errs = [[] for _ in progs]
+    unlocked = []
     pc = [0] * len(progs)
 
     def worker(i):
         def f():
             for n, op in enumerate(progs[i]):
+                n0 = lock.acq_count.get(i, 0)
                 errs[i].append(lp.apply_op(p, op, u, glue=i + n))
+                if lock.acq_count.get(i, 0) == n0:
+                    unlocked.append(lp.enc_op(op))
         return f
 
-    for i in range(len(progs)):
-        sched.spawn(i, worker(i))
-    prio = {i: rng.random() for i in range(len(progs))}
-    script = list(fixed[2]) if fixed else None
     commit_errs = []
     inp = lambda: {"A": A, "T": T, "period": period, "setup": [lp.enc_op(o) for o in setup],
                    "threads": [[lp.enc_op(o) for o in pr] for pr in progs],
                    "schedule": " ".join(f"{k}{t}" for k, t in sched.events), "clock": list(clock.readings)}
-    steps = 0
-    while True:
-        runnable = sched.runnable()
-        if not runnable:
-            break
-        if script is not None:
-            tid = script.pop(0) if script and script[0] in runnable else runnable[0]
-        else:
-            tid = choose(rng, strategy, sched, runnable, prio)
-        kind = sched.kind[tid]
-        before = snapshot(p) if kind == "c" else None
-        sched.step(tid)
-        sched.check_exc()
-        steps += 1
-        if kind == "c":
+
+    def drain(tid, before):
+        """operations of thread `tid` that completed during the step just taken"""
+        while pc[tid] < len(errs[tid]):
             op = progs[tid][pc[tid]]
             res = errs[tid][pc[tid]]
             pc[tid] += 1
@@ -343,8 +343,32 @@ def scheduled_run(ctx, nthreads, maxlen, fixed=None):
                 spec.apply(op, u, before.get(tgt, (False, None))[0])
             lp.evaluate(ctx, p, spec, op, res, before, "threads", inp(), classify=classify_unsorted)
             ctx.note(f"thr-op:{op[0]}:{res}")
+            before = snapshot(p)
+
+    for i in range(len(progs)):
+        before = snapshot(p)
+        sched.spawn(i, worker(i))
+        drain(i, before)  # nothing, unless an operation ran without reaching a yield point
+    prio = {i: rng.random() for i in range(len(progs))}
+    script = list(fixed[2]) if fixed else None
+    while True:
+        runnable = sched.runnable()
+        if not runnable:
+            break
+        if script is not None:
+            tid = script.pop(0) if script and script[0] in runnable else runnable[0]
+        else:
+            tid = choose(rng, strategy, sched, runnable, prio)
+        before = snapshot(p)
+        sched.step(tid)
+        sched.check_exc()
+        drain(tid, before)
     if any(pc[i] != len(progs[i]) for i in range(len(progs))):
         raise RuntimeError("scheduler: threads did not finish")
+    ctx.check(not unlocked, "threads:lock-discipline", inp(),
+              f"operations ran without acquiring Progress._lock (nothing orders their read-modify-write against other threads): {unlocked[:4]}")
+    ctx.check(not unguarded, "threads:lock-discipline", inp(),
+              f"task fields written by a thread that did not hold Progress._lock: {sorted(set(unguarded))}")
     inversions = 0
     ev = " ".join(f"{k}{t}" for k, t in sched.events)
     # read/commit inversion: a thread that read the clock earlier commits later
@@ -398,10 +422,16 @@ def track_seq(ctx, n, mode, existing, setup_ops):
         seq, total = iter(items), n + 2
     out, heads = [], []
     kw = {} if total is None else {"total": total}
-    for v in p.track(seq, task_id=task_id, **kw):
-        out.append(v)
-        heads.append(f"ok@{clock.k}#" + lp.dump(p, u))
-    heads.append(f"ok@{clock.k}#" + lp.dump(p, u))
+    try:
+        for v in p.track(seq, task_id=task_id, **kw):
+            out.append(v)
+            heads.append(f"ok@{clock.k}@{'1' if p.finished else '0'}#" + lp.dump(p, u))
+    except lp.DomainError:
+        raise
+    except Exception as e:  # noqa: BLE001
+        ctx.check(False, "track:raised", (mode, n, existing), f"track() raised {type(e).__name__}: {e}")
+        return
+    heads.append(f"ok@{clock.k}@{'1' if p.finished else '0'}#" + lp.dump(p, u))
     tid = task_id if existing else len([o for o in setup_ops if o[0] == "A"])
     t = next(x for x in p.tasks if x.id == tid)
     ctx.check(out == items, "track:yields", (mode, n), f"yielded {out!r}, sequence was {items!r}")
@@ -432,6 +462,7 @@ def track_thread(ctx, n, existing, close_after=None):
     seen = []
     items = list(range(n))
     out = []
+    at_return = []
     orig = rp._TrackThread
     rp._TrackThread = lp.make_track_thread_class(sched, seen)
     try:
@@ -443,6 +474,8 @@ def track_thread(ctx, n, existing, close_after=None):
                 if close_after is not None and len(out) == close_after:
                     gen.close()
                     break
+            # the moment track() returns to its caller (no lock taken: plain read of the dict)
+            at_return.extend(t.completed for t in p._tasks.values() if t.id == 0)
 
         sched.spawn("cons", consumer)
         w_cons = rng.choice([0.3, 0.5, 0.8])
@@ -456,7 +489,6 @@ def track_thread(ctx, n, existing, close_after=None):
             else:
                 tid = rng.choice([t for t in runnable if t != "cons"] or runnable)
             sched.step(tid)
-            sched.check_exc()
             steps += 1
             if steps > 5000:
                 raise RuntimeError("track scheduler: no termination")
@@ -464,16 +496,27 @@ def track_thread(ctx, n, existing, close_after=None):
         rp._TrackThread = orig
     if sched.state.get("track") not in (None, "done") or sched.state["cons"] != "done":
         raise RuntimeError("track scheduler: a thread is stuck")
+    for who, e in sched.exc.items():
+        if isinstance(e, (lp.DomainError, RuntimeError)):
+            raise e
+    if sched.exc:
+        ctx.check(False, "track-thread:raised", (n, existing, close_after), f"track() / helper thread raised {sched.exc!r}")
+        return
     done = n if close_after is None else close_after - 1
-    wakes, final = seen[:-1], seen[-1]
+    wakes = [v for v, fl in seen if not fl]
+    finals = [v for v, fl in seen if fl]
+    final = finals[-1] if finals else None
     tid = 0
     t = next(x for x in p.tasks if x.id == tid)
     want_items = items if close_after is None else items[:close_after]
     ctx.check(out == want_items, "track-thread:yields", (n, close_after), f"yielded {out!r}")
-    ctx.check(final == done, "track-thread:counter", (n, close_after, seen), f"helper thread's final count {final} != elements completed {done}")
+    ctx.check(len(finals) == 1 and final == done, "track-thread:counter", (n, close_after, seen),
+              f"helper thread read its counter {len(finals)} time(s) after it was told to stop, last value {final}; elements completed {done}")
     if close_after is None:
         ctx.check(t.completed == n, "track-thread:count", (n, existing, " ".join(f"{k}{x}" for k, x in sched.events)),
                   f"completed={t.completed!r} after {n} elements (wake-ups saw {wakes})")
+    ctx.check(at_return == [done], "track-thread:count-at-return", (n, existing, close_after, " ".join(f"{k}{x}" for k, x in sched.events)),
+              f"when track() returned, completed was {at_return} (elements completed: {done})")
     ctx.check(all(a <= b for a, b in zip(wakes, wakes[1:])), "track-thread:monotone", wakes, "counter seen by the helper went down")
     ctx.note(f"track-thread:wakes{min(len([1 for a, b in zip([0] + wakes, wakes) if a != b]), 4)}")
     # the operations are issued by rich's own helper thread, so there is no observation between them:
@@ -498,6 +541,9 @@ def track_real_timing(ctx, n):
             out.append(v)
             if v % 64 == 0:
                 time.sleep(0)  # let the helper run; no correctness dependence on timing
+    if not p.tasks:
+        ctx.check(False, "track-real:count", n, "no task after track()")
+        return
     t = p.tasks[0]
     ctx.check(out == list(range(n)), "track-real:yields", n, "elements lost or reordered")
     ctx.check(t.completed == n, "track-real:count", n, f"completed={t.completed!r} after {n} elements")
@@ -539,7 +585,39 @@ def terminal_histories(ctx, count):
                 spec.apply(op, u, before.get(tgt, (False, None))[0])
             lp.evaluate(ctx, p, spec, op, res, before, "terminal", list(done))
             if n % 3 == 0:
-                p.refresh()
+                try:
+                    p.refresh()
+                    ok = True
+                except lp.DomainError:
+                    raise
+                except Exception as e:  # noqa: BLE001
+                    ok = False
+                    why = f"{type(e).__name__}: {e}"
+                ctx.check(ok, "terminal:refresh", list(done), "refresh() raised " + ("" if ok else why))
+
+
+def percentages(ctx):
+    """Task.percentage and ProgressBar.percentage_completed on a grid around the clamps"""
+    from rich.progress import Task
+    from rich.progress_bar import ProgressBar
+
+    vals = [-7, -3, -1, 0, 1, 2, 3, 5, 6, 7, 100, 101, 2 ** 40, 10 ** 15 + 1]
+    for tot in vals:
+        for comp in vals:
+            for fl in (False, True):
+                if fl and max(abs(tot), abs(comp)) > 2 ** 50:
+                    continue
+                T, C = (float(tot), float(comp)) if fl else (tot, comp)
+                t = Task(0, "d", T, C, _get_time=lambda: 0.0)
+                pe = lp.exact_percentage(T, C)
+                pr = lp.get(t, "percentage")
+                ctx.check(isinstance(pr, float) and lp.close(pr, pe), "percentage_spec", (T, C), f"Task.percentage={pr!r}, exact {pe}")
+                ctx.case("pg_pct", [tot, comp], lp.frac(pe) if lp.close(pr, pe) else f"float:{pr!r}", shape="task")
+                if tot != 0:
+                    br = lp.get(ProgressBar(total=T, completed=C), "percentage_completed")
+                    ctx.check(lp.close(br, pe), "percentage_spec:bar", (T, C), f"ProgressBar.percentage_completed={br!r}, exact {pe}")
+                    ctx.case("pg_pct", [tot, comp], lp.frac(pe) if lp.close(br, pe) else f"float:{br!r}", shape="bar")
+    ctx.flush()
 
 
 def run(ctx):
@@ -551,13 +629,14 @@ def run(ctx):
         "threads: one step = code between two yield points (clock read outside the lock / outermost lock acquisition / Event.wait of the track thread); a thread holding the lock is never preempted, so preemption inside a body and inside a source line is not exhibited",
     ]
     quick = ctx.quick
+    percentages(ctx)
     n_ex = exhaustive(ctx)
     ctx.note("exhaustive-histories", n_ex)
     random_histories(ctx, 2500 if quick else 60000)
     long_history(ctx, 2 if quick else 8)
     f21_directed(ctx)
     for i in range(1500 if quick else 40000):
-        nt = ctx.rng.choice([2, 2, 3, 3, 4] if quick or i % 4 else [5, 6, 8])
+        nt = ctx.rng.choice([2, 2, 3, 3, 4] if i % 8 else [5, 6, 8])
         scheduled_run(ctx, nt, 3 if nt <= 4 else 2)
         if i % 500 == 499:
             ctx.flush()
@@ -576,6 +655,8 @@ def run(ctx):
         track_real_timing(ctx, n)
     track_errors(ctx)
     terminal_histories(ctx, 60 if quick else 1500)
+    for k, v in sorted(lp.STATS.items()):
+        ctx.note(k, v)
     ctx.rule = (
         "sequential: every history of <= %d operations over a 21-symbol alphabet (one representative per branch of "
         "advance/update/reset/start/stop/add/remove, amounts below/at/above the total, zero and negative) x clock patterns, "
@@ -596,7 +677,37 @@ def replay(ctx, case):
 
 
 MANIFEST = {
-    "text": "TODO",
-    "note": "TODO",
-    "design_ref": "DESIGN.md section 7, C12",
+    "text": "Lean 4 theorems (Props/C12.lean; no bound on the number of operations, tasks, threads or on the schedule; "
+    "amounts and clock readings arbitrary integers in units 1/A step, 1/tps second) about an executable model of "
+    "rich/progress.py (Task, add_task/start_task/stop_task/update/reset/advance/remove_task, percentage/finished/"
+    "elapsed/speed/time_remaining, Progress.track, _TrackThread, and a thread step machine: clock read outside the lock, "
+    "atomic body under the lock): completed_exact (last explicitly set value + advances since, by induction over "
+    "histories incl. failing ops, other tasks, removals), percentage_spec (fraction literally 100*completed/total, "
+    "clamped, 0 for total 0, both signs of total), finished_after_reaching_total, finish_time_stable (until reset / "
+    "update(total=)), speed_nonneg and remaining_nonneg_when_running (invariants: samples sorted by timestamp and "
+    "non-negative on a monotone clock; started & unfinished & has samples => completed < total), "
+    "accounting_linearizable (for every schedule the counters equal the sequential history in lock-acquisition order, "
+    "on any clock, either code variant) with completed_exact_all_schedules, fixed_schedules_are_sequential + "
+    "speed_nonneg_all_schedules for the repaired variant, the machine-checked witness old_speed_negative_under_schedule "
+    "(F21: 2 threads, 4 events, speed -1, remaining -98 s) and remaining_negative_if_advanced_unstarted (why the "
+    "hypothesis 'running whenever it advances' is needed), track_counts / track_thread_counts (any batching by the "
+    "helper thread). Tie: the model is run against real rich on an injected clock - every history of <=3 (thorough 4) "
+    "ops over a 21-symbol alphabet, seeded adaptive random histories, >1000-sample histories, compared after every "
+    "operation on all task fields, the sample deque, derived values, Progress.finished, number of clock reads and "
+    "error kind; 2-8 real threads under a deterministic scheduler (yield points: clock read outside the lock, "
+    "outermost lock acquisition) replayed step by step by the model; Progress.track over list/generator/range with "
+    "and without the helper thread (rich's own _TrackThread.run under the scheduler). Direct evaluation of the "
+    "statement on rich's own tasks with an independent spec tracker, incl. lock discipline (every mutator acquires "
+    "Progress._lock; no task field is written without it).",
+    "note": "Trusted: Lean kernel; axioms propext/Classical.choice/Quot.sound; the correspondence harness incl. the "
+    "scheduler. Exact-in-double inputs only (integers and dyadic fractions): float rounding of +/- is outside the model; "
+    "ratios are compared as exact fractions computed from the real task's raw fields, the real float getters must match "
+    "them to 1e-11 relative. A thread holding the lock is never preempted and preemption inside a source line is not "
+    "exhibited (GIL-level atomicity of `+=` on attributes is not modelled): 'no lost update' rests on the checked lock "
+    "discipline. description/fields of a task, rendering columns (filesize, bar) and _RefreshThread are not modelled; "
+    "ProgressBar.percentage_completed is compared on a grid only. refresh() is a no-op in the correspondence runs "
+    "(non-terminal console); a terminal run evaluates the statement only. The real-timing track() runs are not "
+    "seed-replayable (they only evaluate the statement). Sequential quirk outside the statement: reset() does not "
+    "clear stop_time, so elapsed/finished_time can be negative after stop_task; reset.",
+    "design_ref": "DESIGN.md section 7, C12; pre-finding F21 (section 8)",
 }
